@@ -2287,6 +2287,8 @@ def gen_fault(r, kmax=40, lp=False):
     if k < 0.36:
         # the n-th call of a compile entry point during this solve raises: while the caches are
         # built, or -- if compilation is deferred -- inside the callback that triggers it
+        if r.random() < 0.3:
+            return {"site": "compile", "of": r.choice(["compile_hessian", "compile_hessian", "compile_jacobian"]), "k": r.choice([1, 1, 2]), "exc": exc}
         return {"site": "compile", "k": r.choice([1, 2, 3, 3, 4, 5, 6, 7, 8, 10, 12, 15, 20]), "exc": exc}
     if k < 0.48:
         # a compiled callable raises when optyx itself evaluates it after the solver returned
